@@ -64,8 +64,9 @@ type mutCase struct {
 	What     string `json:"what"`
 }
 
-// libReading classifies why the handler said what it said, for class counting
-// only (strconv semantics re-stated here, not used by the oracle).
+// usernameShape classifies a presented username for class counting only (not
+// used by the oracle): a stamp as a generator writes it, some other text that
+// still parses as a number ("+1", "01"), or no number at all.
 func usernameShape(kind, u string) string {
 	if _, ok := refStamp(kind, u); ok {
 		return "canonical-stamp"
